@@ -1838,6 +1838,10 @@ class Cluster(object):
                 session.user_type_registered(keyspace, udt_name, klass)
 
     def _cleanup_failed_on_up_handling(self, host):
+        if self.metadata.get_host(host.endpoint) is not host:
+            # removed meanwhile (and possibly added again as a new Host, which compares equal):
+            # on_remove has cleaned up after this one, the policies and pools now belong to the new one
+            return
         self.profile_manager.on_down(host)
         self.control_connection.on_down(host)
         for session in tuple(self.sessions):
